@@ -98,10 +98,20 @@ def run(ctx, replay=None):
             raise Infra("MigrillianNoClamp.cfg (Hi <- HiUnclamped) does not violate Bounded (violated=%s rc=%d): the configured-range "
                         "dimension of the specification does not distinguish a migrator that runs beyond the verified STH" % (r.violated, r.rc))
         ctx.exhaustive = True
+    conformance(ctx)
+
+
+def conformance(ctx, f=1.0):
+    """Steps 2-4: the real core.Controller (with the real scanner.Fetcher inside) against Migrillian.tla in both directions.
+    Also called by C16 (f < 1): the controller is an anchored user of the Fetcher, and what C16 says about continuous
+    passes ("carries on with newly published entries without gaps or repeats", transient errors) is decided here by
+    PosCovered / NoGap / Complete / Mirror."""
+    def n(q, t):
+        return max(40, int(ctx.pick(q, t) * f))
     # 2. spec -> code: simulated behaviours as fault schedules
     behs = []
-    for cfg, num in (("MigrillianSim.cfg", ctx.pick(400, 4000)), ("MigrillianSimBenign.cfg", ctx.pick(400, 4000)),
-                     ("MigrillianSimPages.cfg", ctx.pick(200, 2000)), ("MigrillianSimRange.cfg", ctx.pick(300, 3000))):
+    for cfg, num in (("MigrillianSim.cfg", n(400, 4000)), ("MigrillianSimBenign.cfg", n(400, 4000)),
+                     ("MigrillianSimPages.cfg", n(200, 2000)), ("MigrillianSimRange.cfg", n(300, 3000))):
         r = ctx.tlc("migrate", "SimMigrillian", cfg, simulate=num, depth=300, count=False, timeout=3000)
         b = r.records.get("BEH", [])
         if not b:
@@ -121,7 +131,7 @@ def run(ctx, replay=None):
     need_range(reps, "replay")
     validate(ctx, os.path.join(outdir, "replay-traces.ndjson"), None, "replay")
     # 3. code -> spec: random scenarios, traces validated with all invariants on
-    _, outdir, reps = ctx.go_test("vt/c20", run="TestTrace$", env={"VERIF_TRACES": ctx.pick(150, 1500)}, toolchain="go1.26", race=True,
+    _, outdir, reps = ctx.go_test("vt/c20", run="TestTrace$", env={"VERIF_TRACES": n(150, 1500)}, toolchain="go1.26", race=True,
                                   timeout=3000, name="c20trace")
     need_empty_pages(reps, "trace")
     need_range(reps, "trace")
